@@ -537,6 +537,26 @@ func genCase(t *rapid.T) (Case, map[string]bool) {
 			gs.l("gradient-stops-edited-register-by-register-between-paths")
 		}
 	}
+	if rapid.IntRange(0, 5).Draw(t, "palgrad") == 0 {
+		// the graphic begins with a gradient whose stop colours it never writes: they are what the
+		// registers hold from the start, the custom palette's entries
+		n := rapid.IntRange(2, 4).Draw(t, "palgrad.n")
+		cb := gen.Sel(t, "palgrad.cbase")
+		reg := (cb + uint8(n) + uint8(rapid.IntRange(0, 20).Draw(t, "palgrad.reg"))) & 63
+		pre := []ops.Op{ops.OpSetNSel(20)}
+		for j, v := range []float32{1.0 / 64, 0, 0.5, 0, 1.0 / 64, 0.5} {
+			pre = append(pre, ops.OpSetNReg(uint8(6-j), false, v))
+		}
+		for i := 0; i < n; i++ {
+			c.Palette[(int(cb)+i)&63] = gen.PremulColor(t, "palgrad.col")
+			pre = append(pre, ops.OpSetNReg(0, true, float32(i)/float32(n-1)))
+		}
+		pre = append(pre, ops.OpSetCSel(reg), ops.OpSetCReg(0, false, ops.RGBAv(spec.EncodeGradientBits(spec.GradientBits{NStops: uint8(n), CBase: cb, NBase: 20, Spread: uint8(rapid.IntRange(0, 3).Draw(t, "palgrad.spread"))}))),
+			ops.OpStartPath(0, 1, 2), ops.OpDraw(ops.AbsLineTo, 9, 3), ops.OpDraw(ops.AbsLineTo, 4, 11), ops.OpDraw(ops.ClosePathEndPath), ops.OpSetCSel(0), ops.OpSetNSel(0))
+		c.Ops = append(pre, c.Ops...)
+		gs.l("gradient-whose-stop-colours-are-the-palette's-entries-(never-written)")
+		gs.l("custom-palette")
+	}
 	return c, gs.labels
 }
 
